@@ -6,6 +6,7 @@ from sa.deps import Facts, names_in, pseudo
 from sa.loader import AnalysisError, FuncInfo, own_nodes
 from sa.model import norm_compare, row_loops, rowloop_signature, u, where
 from sa.paths import FALL, RAISE, RETURN, Enumerator, path_nodes
+from sa.pattern import find_expr, find_stmt, has_expr, has_stmt, match_expr, match_stmt
 
 SQL = 'dataflows.processors.dumpers.to_sql'
 
@@ -76,7 +77,7 @@ def check(ctx):
                   'rows do not continue downstream from the writer')
     run.floor('R23', n, 4, 'mode paths')
     body = u(pr.node)
-    run.check("mode = converted_resource.get('mode', 'rewrite')" in body, 'R23', pr.where, pr.qualname, "default mode rewrite",
+    run.check(has_stmt("mode = _c.get('mode', 'rewrite')", pr.node), 'R23', pr.where, pr.qualname, "default mode rewrite",
               'the default mode is not rewrite')
 
     run.rule('R12', 'ROW-LOOP-SHAPE(sql): rows continue downstream as the written row object with only the two optional flag columns '
@@ -93,7 +94,7 @@ def check(ctx):
         okg = okg and pseudo(x.value) == want
     rets = [x for x in own_nodes(go.node) if isinstance(x, ast.Return)]
     okg = okg and len(stores) == 2 and len(rets) == 1 and pseudo(rets[0].value) == 'row' and \
-        'row, updated, updated_id = (written.row, written.updated, written.updated_id)' in u(go.node)
+        has_stmt('row, updated, updated_id = (_w.row, _w.updated, _w.updated_id)', go.node)
     run.check(okg, 'R12', go.where, go.qualname, 'row[updated_column] = updated; row[updated_id_column] = updated_id; return row',
               'the downstream row is not the written row with truthful updated flags')
     ne = sd.methods['normalize_for_engine']
@@ -113,10 +114,10 @@ def check(ctx):
                  'continue downstream: with sqlite a downstream step sees \'[1, 2]\' (a JSON string) instead of [1, 2]')
     # actions only for array / object fields
     body = u(ne.node)
-    run.check("if field['type'] in ['array', 'object']" in body and "actions.setdefault(field['name'], []).extend(OBJECT_FIXERS[dialect])" in body,
+    run.check(len(find_stmt("if _f['type'] in ['array', 'object']:\n    ...\n    _a.setdefault(_f['name'], []).extend(OBJECT_FIXERS[_d])", ne.node)) == 1,
               'R12', ne.where, ne.qualname, 'fixers only for array / object fields', 'other field types are rewritten for the engine')
     ns = sd.methods['normalize_schema_for_engine']
-    run.check('copy.deepcopy(schema)' in u(ns.node), 'R12', ns.where, ns.qualname, 'engine schema is a deep copy',
+    run.check(has_stmt('_s = copy.deepcopy(_s)', ns.node), 'R12', ns.where, ns.qualname, 'engine schema is a deep copy',
               'the emitted schema itself is rewritten for the engine (downstream sees string instead of array/object)')
     run.trusted += ['tableschema-sql Storage.write(as_generator=True) yields one WrittenRow(row, updated, updated_id) per input row, in order']
     run.not_decided += ['the table contents (tableschema-sql semantics of delete / create / write with update keys)',
